@@ -952,7 +952,7 @@ class _SecVarCase:
     Peptide 3 starts with an INTERNAL methionine."""
     PROT = 'MAEGLLTDNKVSAGTLEQKMTPELDGHUAVLNRGGHK'
 
-    def __init__(self):
+    def __init__(self, variants=None):
         import sys
         from moPepGen import dna, svgraph
         from mpgverif.harness.annobuild import anno_one_gene
@@ -968,20 +968,27 @@ class _SecVarCase:
         d = cs + 3 * self.PROT.index('D', 20) + 1
         h = cs + 3 * self.PROT.index('H') + 2
         self.vars = [(d, 'A', 'C'), (h, 'C', 'G')]
+        if variants is not None:
+            self.vars = [(cs + o, r, a) for o, r, a in variants]
         for p, r, a in self.vars:
-            assert self.tx[p] == r, (p, r, self.tx[p])
+            assert self.tx[p:p + len(r)] == r, (p, r, self.tx[p:p + len(r)])
         anno = anno_one_gene(0, len(self.tx), 1, [(0, len(self.tx))], cds=[(cs, ce - 3)], sec=[(self.u, self.u + 3)],
                              three_utr=[(ce, len(self.tx))])
         genome = dna.DNASeqDict({'chr1': dna.DNASeqRecord(Seq(self.tx), id='chr1', name='chr1', description='chr1')})
         tx_seqs = {'T1': anno.transcripts['T1'].get_transcript_sequence(genome['chr1'])}
-        recs = [VariantRecord(location=FeatureLocation(seqname='T1', start=p, end=p + 1), ref=r, alt=a, _type='SNV',
-                              _id=f'SNV-{p + 1}-{r}-{a}', attrs={'GENE_ID': 'G1', 'TRANSCRIPT_ID': 'T1'})
-                for p, r, a in self.vars]
-        self.ids = {f'SNV-{p + 1}-{r}-{a}': (p, r, a) for p, r, a in self.vars}
+        recs = []
+        self.ids = {}
+        for p, r, a in self.vars:
+            typ = 'SNV' if len(r) == len(a) == 1 else 'INDEL'
+            vid = f'{typ}-{p + 1}-{r}-{a}'
+            self.ids[vid] = (p, r, a)
+            recs.append(VariantRecord(location=FeatureLocation(seqname='T1', start=p, end=p + len(r)), ref=r, alt=a,
+                                      _type=typ, _id=vid, attrs={'GENE_ID': 'G1', 'TRANSCRIPT_ID': 'T1'}))
         ref_full = self._tr(self.tx, False)
         ref_trunc = self._tr(self.tx, True)
         self.ref = {q for q, k in _digest(ref_full)} | {q for q, k in _digest(ref_trunc)}
-        self.deny = {Seq(q) for q, k in _digest(ref_full)}
+        # as the real wrapper does (call_canonical_peptides with truncate_sec): canonical = full and Sec-truncated reference
+        self.deny = {Seq(q) for q in self.ref}
         real = svgraph.PeptideVariantGraph.call_variant_peptides
 
         def capture(pg, **kwargs):
@@ -1001,7 +1008,7 @@ class _SecVarCase:
         finally:
             svgraph.PeptideVariantGraph.call_variant_peptides = real
         self.cands = set()
-        for n in (1, 2):
+        for n in range(1, len(self.vars) + 1):
             for sub in itertools.combinations(self.vars, n):
                 s = self._apply(sub)
                 self.cands |= _digest(self._tr(s, False)) | _digest(self._tr(s, True))
@@ -1102,6 +1109,8 @@ c03_sect_headers_2 = _mksv('C03', 'c03_sect_headers_2', 'headers', 2, ('thorough
 # C16 -> callVariant (C01 alternative-splicing clause): rMATS record -> GVF record -> pool conversion -> peptides
 # --------------------------------------------------------------------------
 class _FakePointer:
+    is_circ_rna = False                # attribute of the real GVFPointer
+
     def __init__(self, records):
         self.records = records
 
@@ -1426,3 +1435,29 @@ _c02_endnf.__name__ = _c02_endnf.__qualname__ = 'c02_fusion_traversal_endnf_1'
 c02_fusion_traversal_endnf_1 = cond(
     'C02', bounds=_BF % ('in frame; acceptor tagged mRNA_end_NF (its model ends inside the CDS, no stop codon)', 1),
     encodes=ENC_F, stubs=STUBS + ['variant pool -> stand-in without further variants'], codes=CODES_F, timeout=900)(_c02_endnf)
+
+
+# stop-lost by an SNV on the FIRST nucleotide of the stop codon (TAA>CAA) plus a downstream SNV
+CASE_SL_SNV1 = _Lazy(lambda: _StopLostCase(variants=[(0, 'T', 'C'), (3 + 3 * 6 + 2, 'C', 'G')]))
+
+
+def _sl_snv1(lo: int, hi: int) -> int:
+    """
+    pre: 1 <= lo
+    post: _ >= 0
+    """
+    r = CASE_SL_SNV1.check(1, lo, hi)
+    if r != OK:
+        return r
+    h = CASE_SL_SNV1.headers(1, lo, hi)
+    return OK if h in (OK, SKIP) else h - 10
+
+
+_sl_snv1.__name__ = _sl_snv1.__qualname__ = 'c01_stop_lost_first_base_1'
+c01_stop_lost_first_base_1 = cond(
+    'C01', bounds=("ONE concrete transcript (19 codons + an open in-frame 3'UTR, GENCODE convention) with an SNV on the FIRST "
+                   'nucleotide of the stop codon (TAA>CAA) and an SNV in the 3\'UTR; peptide set and header entries; '
+                   'miscleavage = 1, min_length and max_length UNBOUNDED symbolic integers'),
+    encodes=ENC_SV, stubs=STUBS + ['variant pool -> stand-in without further variants'],
+    codes={-1: CODES[-1], -4: CODES[-4], -11: CODES_H[-1], -12: CODES_H[-2], -13: CODES_H[-3], -14: CODES_H[-4]},
+    timeout=900)(_sl_snv1)
